@@ -463,7 +463,8 @@ LOOKED AT: the tier-0 replicas (`q1`), the replicas of the farther tiers tier by
 option; the code fills the buckets while it walks the replica list - the whole list has been walked before the
 first bucket is read), and the positions of the fallback iterator (`fb`, created at the first call that gets past the
 replica phases: ONE snapshot of the lists; `none` = the index computation panics at that position). The `used` map
-of the code holds exactly the hosts the iterator has offered: `given`. With the state fixed `LIter` offers what `Iter`
+of the token-aware iterator holds exactly the hosts it has offered: `given` (a query handed to the fallback policy as
+it is gets the fallback policy's own iterator, which has no such map: `plain`). With the state fixed `LIter` offers what `Iter`
 offers (cross-checked by the model driver at every call; not proved). -/
 
 structure LIter where
@@ -471,6 +472,9 @@ structure LIter where
   q1 : List Host
   q2 : List Host
   fb : Option (List (Option Host))
+  /-- the query was handed to the fallback policy as it is: the iterator IS the fallback policy's (`roundRobbin`), which
+  keeps no `used` map -/
+  plain : Bool := false
 deriving Repr
 
 /-- the positions the iterator of the next `Pick` of the round-robin based policy looks at, layer after layer -/
@@ -478,7 +482,7 @@ def Pol.positions (p : Pol) : List (Option Host) := (p.layers.map (layerScan p.s
 
 /-- `Pick(qry)` -/
 def TA.openL (t : TA) (σ : List Host → List Host) (rk : Option (Nat × Nat)) : TA × LIter :=
-  let plain : TA × LIter := ({ t with pol := t.pol.bump }, ⟨[], [], [], some t.pol.positions⟩)
+  let plain : TA × LIter := ({ t with pol := t.pol.bump }, ⟨[], [], [], some t.pol.positions, true⟩)
   match rk with
   | none => plain
   | some (ks, tok) =>
@@ -488,7 +492,7 @@ def TA.openL (t : TA) (σ : List Host → List Host) (rk : Option (Nat × Nat)) 
     | .hosts l ft =>
       let reps := if ft && t.shuffle then σ l else l
       (t, ⟨[], localReplicas t.pol.tier (fun _ => true) reps,
-           if t.nonlocal then remoteWalk (fun _ => true) (remoteBuckets t.pol.tier t.pol.maxTier reps) else [], none⟩)
+           if t.nonlocal then remoteWalk (fun _ => true) (remoteBuckets t.pol.tier t.pol.maxTier reps) else [], none, false⟩)
 
 /-- the walk of the fallback phase: the next position whose host is up NOW and was not offered by this iterator;
 a position whose index computation panics ends everything -/
@@ -508,7 +512,7 @@ def TA.nextL (t : TA) (up : Nat → Bool) (it : LIter) : TA × LIter × Next :=
       let st : TA × List (Option Host) := match it.fb with
         | some ps => (t, ps)
         | none => ({ t with pol := t.pol.bump }, t.pol.positions)
-      match scanPos up it.given st.2 with
+      match scanPos up (if it.plain then [] else it.given) st.2 with
       | (.host x, rest) => (st.1, { it with q1 := [], q2 := [], fb := some rest, given := it.given ++ [x] }, .host x)
       | (e, rest) => (st.1, { it with q1 := [], q2 := [], fb := some rest }, e)
 
